@@ -32,6 +32,11 @@ def worlds(tier: str, stats: Dict[str, Any]) -> Iterator[Any]:
     for w in cpworlds.worlds(tier, stats, subset="smaller"):
         w["tier"] = tier
         yield w
+        if any(a[0] == "op" for a in w["program"]) and not any(w.get(k) for k in ("second_thread", "second_process", "as_rank1", "file_order")):
+            # a graph with an edge of weight -1 clamped to 0 (child ending one unit after its parent): still a
+            # successful analysis, so it must survive save/restore like any other
+            stats["transitions"] += 1
+            yield dict(w, overhang=True)
 
 
 def breakdown_rows(g):
